@@ -139,6 +139,11 @@ def _run_variant(case, ops, tag):
             return ("io-open", f"open read {opened} bytes from storage; metadata is {img.meta_bytes} bytes (allowed {allowed})"), trace, world, img
         if stream.size != size:
             return ("size", f"size {stream.size} != {size}"), trace, world, img
+        span, tbytes, top = F.meta_model(case["cfg"])
+        tables_seen = set()
+        cum_cost = 0
+        cum_req = 0
+        cum_extra = 0
         for op in case["cops"]:
             off, ln = op[1], op[2]
             before = world.total_ledger()
@@ -167,6 +172,17 @@ def _run_variant(case, ops, tag):
             allowed = K_REQ * (eff + 2 * case["align"]) + K_META * F.req_meta_bytes(case["cfg"], img, off, eff + 2 * case["align"]) + C_REQ
             if cost > allowed:
                 return ("io-request", f"{op} [{tag}] read {cost} bytes from storage for a {eff}-byte request (allowed {allowed})"), trace, world, img
+            # cumulative budget: a mapping table is paid for once per run, however many requests it serves
+            a0 = max(0, off - case["align"])
+            a1 = min(size, off + eff + case["align"])
+            tables_seen.update(range(a0 // span, max(a0 // span + 1, (a1 + span - 1) // span)))
+            cum_cost += cost
+            cum_req += eff + 2 * case["align"]
+            cum_extra += max(0, F.req_meta_bytes(case["cfg"], img, off, eff + 2 * case["align"]) - 2 * tbytes - top) if tbytes >= 4096 else F.req_meta_bytes(case["cfg"], img, off, eff + 2 * case["align"])
+            cum_allowed = K_REQ * cum_req + K_META * (len(tables_seen) * tbytes + top + cum_extra) + C_REQ
+            if cum_cost > cum_allowed:
+                return ("io-cumulative", f"after {op} [{tag}] the run has read {cum_cost} bytes from storage for {cum_req} request bytes touching "
+                                         f"{len(tables_seen)} mapping table(s) of {tbytes} bytes (allowed {cum_allowed}): tables are re-read per request"), trace, world, img
     return None, trace, world, img
 
 
